@@ -43,6 +43,11 @@ pub struct Node {
     pub repl_rx: Receiver<String>,
     pub sup_rx: Receiver<String>,
     pub sessions: BTreeMap<String, Sess>,
+    // real transport (C17, C10): sessions are sockets
+    pub transport: String,
+    pub port: u16,
+    pub conns: BTreeMap<String, crate::net::Conn>,
+    pub net_inbox: BTreeMap<String, Vec<String>>,
 }
 
 pub fn drain(rx: &mut Receiver<String>) -> Vec<String> {
@@ -123,9 +128,62 @@ impl Node {
                     repl_rx,
                     sup_rx,
                     sessions: BTreeMap::new(),
+                    transport: "direct".to_string(),
+                    port: 0,
+                    conns: BTreeMap::new(),
+                    net_inbox: BTreeMap::new(),
                 })
             }
             Err(e) => Err(panic_msg(e)),
+        }
+    }
+
+    /// Serves the node on a loopback port with the real TCP / WebSocket server code.
+    pub fn set_transport(&mut self, t: &str) {
+        self.transport = t.to_string();
+        // the server's threads are not the harness thread: they find the data directory through the
+        // process-wide override (one node is served at a time)
+        if t != "direct" {
+            nundb::verif::set_global_data_dir(Some(self.dir.clone()));
+        }
+        match t {
+            "tcp" => self.port = crate::net::start_tcp(self.dbs.clone()),
+            "ws" => self.port = crate::net::start_ws(self.dbs.clone()),
+            _ => {}
+        }
+    }
+
+    fn net_exec(&mut self, c: &str, line: &str) -> J {
+        if !self.conns.contains_key(c) {
+            let conn = if self.transport == "tcp" { crate::net::Conn::tcp(self.port) } else { crate::net::Conn::ws(self.port) };
+            match conn {
+                Ok(k) => {
+                    self.conns.insert(c.to_string(), k);
+                }
+                Err(e) => return json!({"cls":"closed","msg":e}),
+            }
+        }
+        let mut pushed = vec![];
+        let r = self.conns.get_mut(c).unwrap().command(line, &mut pushed);
+        self.net_inbox.entry(c.to_string()).or_insert(vec![]).extend(pushed);
+        r
+    }
+
+    /// Waits until the server threads have nothing left to do: the projection of the node does not
+    /// change for 40 ms (handlers poll their sockets every 2 ms).
+    fn settle(&self) {
+        let mut last = self.dump().to_string();
+        let mut stable_since = std::time::Instant::now();
+        let deadline = std::time::Instant::now() + std::time::Duration::from_millis(1500);
+        while std::time::Instant::now() < deadline {
+            std::thread::sleep(std::time::Duration::from_millis(8));
+            let now = self.dump().to_string();
+            if now != last {
+                last = now;
+                stable_since = std::time::Instant::now();
+            } else if stable_since.elapsed() > std::time::Duration::from_millis(40) {
+                break;
+            }
         }
     }
 
@@ -140,6 +198,11 @@ impl Node {
     /// Runs one command line on session `c`; returns (class, detail).
     pub fn exec(&mut self, c: &str, line: &str) -> J {
         nundb::verif::set_data_dir(Some(self.dir.clone()));
+        if self.transport != "direct" {
+            let r = self.net_exec(c, line);
+            self.settle();
+            return r;
+        }
         let dbs = self.dbs.clone();
         let sess = self.session(c);
         let client = &mut sess.client;
@@ -183,6 +246,14 @@ impl Node {
     /// What the transports do when a connection ends.
     pub fn close(&mut self, c: &str) -> J {
         nundb::verif::set_data_dir(Some(self.dir.clone()));
+        if self.transport != "direct" {
+            if let Some(k) = self.conns.remove(c) {
+                k.close();
+                self.settle();
+            }
+            self.net_inbox.remove(c);
+            return json!({"cls":"ok"});
+        }
         let dbs = self.dbs.clone();
         let r = if let Some(sess) = self.sessions.get_mut(c) {
             let client = &mut sess.client;
@@ -213,6 +284,21 @@ impl Node {
     /// Lines waiting on every session's channel, per session (drained).
     pub fn drain_all(&mut self) -> Map<String, J> {
         let mut m = Map::new();
+        if self.transport != "direct" {
+            for (c, k) in self.conns.iter_mut() {
+                let got = k.poll(std::time::Duration::from_millis(3));
+                if !got.is_empty() {
+                    self.net_inbox.entry(c.clone()).or_insert(vec![]).extend(got);
+                }
+            }
+            for (c, lines) in self.net_inbox.iter_mut() {
+                if !lines.is_empty() {
+                    m.insert(c.clone(), json!(lines.clone()));
+                    lines.clear();
+                }
+            }
+            return m;
+        }
         for (c, s) in self.sessions.iter_mut() {
             let lines = drain(&mut s.rx);
             if !lines.is_empty() {
